@@ -745,6 +745,25 @@ def _sb_call_result(ex, st, args, kwargs):
     yield st, rets[0][2]
 
 
+def _sb_returned(ex, st, args, kwargs):
+    """returned('F'): number of recorded calls of the function under contract F that returned normally on this path (a
+    call that raised is recorded by called() but not here)."""
+    (name,) = args
+    yield st, sum(1 for ev in st.trace if ev[0] == "ret" and ev[1] == name)
+
+
+def _sb_yielded(ex, st, args, kwargs):
+    """yielded(): what the generator under contract yielded since the last loop cut (in a step clause: during this
+    iteration), as a tuple."""
+    buf = st.fr.env.get("$yield")
+    items = list(st.deref(buf).items) if isinstance(buf, Ref) else []
+    for i in range(len(items) - 1, -1, -1):
+        if isinstance(items[i], Opaque) and items[i].kind == "YieldedFrom":
+            items = items[i + 1:]
+            break
+    yield st, tuple(items)
+
+
 def _sb_call_recv(ex, st, args, kwargs):
     """call_recv('Kind.meth'): the receiver of the (single) recorded call of that collaborator method."""
     (name,) = args
@@ -849,7 +868,7 @@ def _sb_py_int_strip(ex, st, args, kwargs):
     yield st, (SV("str", bm.strip_term(bm.sstr(s), "int")) if is_sym(s) else s.strip(" \t\n\x0b\x0c\r"))
 
 
-SPEC_BUILTINS = {"call_recv": _sb_call_recv, "call_result": _sb_call_result, "called_before": _sb_called_before, "comp_filter_count": _sb_comp_filter_count, "comp_filter_element": _sb_comp_filter_element, "comp_filter_condition": _sb_comp_filter_condition, "call_kwarg_names": _sb_call_kwarg_names, "digit_at": _sb_digit_at, "char_in_token": _sb_char_in_token, "lstrip_noop": _sb_lstrip_noop, "char_of_slice": _sb_char_of_slice, "find_in": _sb_find_in, "rfind_in": _sb_rfind_in, "split_first": _sb_split_first, "last_of": _sb_last_of, "strip_noop": _sb_strip_noop, "chars_at": _sb_chars_at, "digit_chars": _sb_digit_chars, "leading_zeros": _sb_leading_zeros, "digits_only": _sb_digits_only, "head_of": _sb_head_of, "py_int": _sb_py_int, "py_int_ok": _sb_py_int_ok, "nat_shift": _sb_nat_shift, "char_at": _sb_char_at, "int_of_digits": _sb_int_of_digits, "substr_at": _sb_substr_at, "strip_core": _sb_strip_core, "cut_at": _sb_cut_at, "excludes": _sb_excludes, "int_padded": _sb_int_padded, "py_int_strip": _sb_py_int_strip, "py_repr": _sb_py_repr, "loops_exhausted": _sb_loops_exhausted, "call_kwarg": _sb_call_kwarg, "some": _sb_some, "index_at": _sb_index_at, "strip_blank": _sb_strip_blank, "pos_of": _sb_pos_of, "call_arg": _sb_call_arg, "unmodified": _sb_unmodified, "uf": _sb_uf, "called": _sb_called, "py_isalpha": _sb_py_isalpha, "py_isdigit": _sb_py_isdigit, "int_of_signed": _sb_int_of_signed, "strip_padded": _sb_strip_padded, "strip_unique": _sb_strip_unique, "py_strip": _sb_py_strip, "pad": _sb_pad, "matches": _sb_matches, "nat": _sb_nat, "key_at": _sb_key_at, "val_at": _sb_val_at,
+SPEC_BUILTINS = {"returned": _sb_returned, "yielded": _sb_yielded, "call_recv": _sb_call_recv, "call_result": _sb_call_result, "called_before": _sb_called_before, "comp_filter_count": _sb_comp_filter_count, "comp_filter_element": _sb_comp_filter_element, "comp_filter_condition": _sb_comp_filter_condition, "call_kwarg_names": _sb_call_kwarg_names, "digit_at": _sb_digit_at, "char_in_token": _sb_char_in_token, "lstrip_noop": _sb_lstrip_noop, "char_of_slice": _sb_char_of_slice, "find_in": _sb_find_in, "rfind_in": _sb_rfind_in, "split_first": _sb_split_first, "last_of": _sb_last_of, "strip_noop": _sb_strip_noop, "chars_at": _sb_chars_at, "digit_chars": _sb_digit_chars, "leading_zeros": _sb_leading_zeros, "digits_only": _sb_digits_only, "head_of": _sb_head_of, "py_int": _sb_py_int, "py_int_ok": _sb_py_int_ok, "nat_shift": _sb_nat_shift, "char_at": _sb_char_at, "int_of_digits": _sb_int_of_digits, "substr_at": _sb_substr_at, "strip_core": _sb_strip_core, "cut_at": _sb_cut_at, "excludes": _sb_excludes, "int_padded": _sb_int_padded, "py_int_strip": _sb_py_int_strip, "py_repr": _sb_py_repr, "loops_exhausted": _sb_loops_exhausted, "call_kwarg": _sb_call_kwarg, "some": _sb_some, "index_at": _sb_index_at, "strip_blank": _sb_strip_blank, "pos_of": _sb_pos_of, "call_arg": _sb_call_arg, "unmodified": _sb_unmodified, "uf": _sb_uf, "called": _sb_called, "py_isalpha": _sb_py_isalpha, "py_isdigit": _sb_py_isdigit, "int_of_signed": _sb_int_of_signed, "strip_padded": _sb_strip_padded, "strip_unique": _sb_strip_unique, "py_strip": _sb_py_strip, "pad": _sb_pad, "matches": _sb_matches, "nat": _sb_nat, "key_at": _sb_key_at, "val_at": _sb_val_at,
                  "same_dict": _sb_same_dict}
 
 
